@@ -2,18 +2,23 @@ package ice
 
 import (
 	"context"
+	"errors"
 	"github.com/pion/stun/v3"
 	"io"
 	"net"
+	"os"
 	"runtime"
 	"sync"
+	"sync/atomic"
 	"time"
 )
 
 // C13(a) — reference counting of handles handed out for one ufrag.
 func init() {
 	verifRegister("verifC13AbortInterleaved", verifC13AbortInterleaved)
+	verifRegister("verifC13AbortInterleavedAP", verifC13AbortInterleavedAP)
 	verifRegister("verifC13PendingRead", verifC13PendingRead)
+	verifRegister("verifC13TwoPendingReads", verifC13TwoPendingReads)
 	verifRegister("verifC13TCPSiblingWrite", verifC13TCPSiblingWrite)
 	verifRegister("verifC13GetAfterLastClose", verifC13GetAfterLastClose)
 }
@@ -180,8 +185,17 @@ func verifC13AbortProtocol() {
 // cancellation of the first one's context, explored over schedules. Whatever
 // the interleaving: everybody returns, the state word is back to 0, the last
 // deadline set on the shared socket is "none", and later writes succeed.
-func verifC13AbortInterleaved() {
+func verifC13AbortInterleaved() { verifC13AbortInterleavedBody(false) }
+
+// the sibling writes through the AddrPort path of an AddrPort-capable socket
+func verifC13AbortInterleavedAP() { verifC13AbortInterleavedBody(true) }
+
+func verifC13AbortInterleavedBody(apSibling bool) {
 	m, sock := verifNewMux()
+	if apSibling {
+		m, sock = verifNewMuxAP()
+		verifReach("addrport-sibling")
+	}
 	sock.blockTag = 0xB1
 	peer := verifMuxAddrs[0]
 	ctx, cancel := context.WithCancel(context.Background())
@@ -189,13 +203,48 @@ func verifC13AbortInterleaved() {
 	var wg sync.WaitGroup
 	var err1, err2 error
 	wg.Add(3)
-	go func() { defer wg.Done(); _, err1 = m.writeToContext(ctx, []byte{0xB1, 1}, peer) }()
-	go func() { defer wg.Done(); _, err2 = m.writeTo([]byte{0x02, 2}, peer) }()
+	var aDone atomic.Bool
+	go func() {
+		defer wg.Done()
+		_, err1 = m.writeToContext(ctx, []byte{0xB1, 1}, peer)
+		aDone.Store(true)
+	}()
+	// the sibling's write either runs freely (it may be in flight when the
+	// abort arms the shared deadline, and then shares the blocked write's fate)
+	// or starts only after the abort has armed the deadline: such a write has
+	// to wait for the abort to be over and then goes out
+	afterArming := apSibling && verifChoice(2) == 1 // (the ordered variant only in the AddrPort harness: budget)
+	go func() {
+		defer wg.Done()
+		if afterArming {
+			for {
+				sock.mu.Lock()
+				n := len(sock.deadlines)
+				sock.mu.Unlock()
+				if n > 0 || aDone.Load() { // (the cancellation may come before the write reached the socket: no abort then)
+					break
+				}
+				runtime.Gosched()
+			}
+		}
+		if apSibling {
+			_, err2 = m.writeToUDPAddrPort([]byte{0x02, 2}, peer.AddrPort())
+		} else {
+			_, err2 = m.writeTo([]byte{0x02, 2}, peer)
+		}
+	}()
 	go func() { defer wg.Done(); cancel() }()
 	wg.Wait()
 
 	verifAssert(err1 != nil, "the-cancelled-blocked-write-returns-an-error")
-	_ = err2
+	// the sibling is not disturbed: its write waits while the abort has the
+	// socket's deadline armed and then goes out
+	if afterArming {
+		verifReach("sibling-starts-during-or-after-the-abort")
+		verifAssert(err2 == nil, "a-sibling's-write-that-starts-after-the-deadline-was-armed-waits-and-succeeds")
+	} else {
+		verifAssert(err2 == nil || errors.Is(err2, os.ErrDeadlineExceeded), "a-sibling's-write-in-flight-at-the-abort-succeeds-or-times-out")
+	}
 	verifAssert(m.writeState.Load() == 0, "after-all-writes-returned-the-state-word-is-0")
 	sock.mu.Lock()
 	n := len(sock.deadlines)
@@ -257,6 +306,48 @@ func verifC13PendingRead() {
 		verifReach("sibling-close")
 		verifAssert(rerrA == nil && nA == 1, "closing-a-sibling-does-not-disturb-a-pending-read")
 	}
+	verifReach("done")
+}
+
+// C13(a'') — both handles have a read pending when a datagram arrives and one
+// of them is closed at about the same time: the wake-up that the datagram
+// caused is not lost with the closed handle. Either the closed handle's read
+// took the datagram before the close got to it, or the sibling's pending read
+// gets it; the sibling's read never stays asleep over a queued datagram.
+func verifC13TwoPendingReads() {
+	m, sock := verifNewMux()
+	hA, errA := m.GetConn("u0", sock.local)
+	hB, errB := m.GetConn("u0", sock.local)
+	verifAssert(errA == nil && errB == nil, "GetConn-ok")
+	under := verifUnderlying(hA)
+	peer := verifMuxAddrs[0]
+	var wgA, wgB, wgC sync.WaitGroup
+	var nA, nB int
+	var rerrA, rerrB error
+	bufA, bufB := make([]byte, 4), make([]byte, 4)
+	wgA.Add(1)
+	go func() { defer wgA.Done(); nA, _, rerrA = hA.ReadFrom(bufA) }()
+	wgB.Add(1)
+	go func() { defer wgB.Done(); nB, _, rerrB = hB.ReadFrom(bufB) }()
+	for n := verifChoice(3); n > 0; n-- { // let the readers park (or not yet)
+		runtime.Gosched()
+	}
+	wgC.Add(1)
+	go func() { defer wgC.Done(); verifAssert(hA.Close() == nil, "close-returns-nil") }()
+	verifAssert(under.writePacket([]byte{7}, peer.AddrPort(), peer) == nil, "queue-packet")
+	wgC.Wait()
+	wgA.Wait() // the closed handle's read returns: with the datagram or with an error
+	if rerrA == nil {
+		verifReach("closed-handle-took-it-first")
+		verifAssert(nA == 1 && bufA[0] == 7, "datagram-intact")
+		verifAssert(under.writePacket([]byte{8}, peer.AddrPort(), peer) == nil, "queue-next-packet")
+	} else {
+		verifReach("closed-handle's-read-failed")
+		verifAssert(nA == 0, "a-failed-read-returns-nothing")
+	}
+	wgB.Wait() // a sibling that stays asleep over a queued datagram is a deadlock outcome
+	verifAssert(rerrB == nil && nB == 1 && (bufB[0] == 7 || bufB[0] == 8), "the-sibling's-pending-read-gets-the-queued-datagram")
+	verifAssert(len(verifQueueOf(under)) == 0, "nothing-is-left-queued")
 	verifReach("done")
 }
 
